@@ -121,8 +121,37 @@ def _profiles(draw):
             "solver": draw(st.sampled_from([None, "SCIPY", "CLARABEL"])), "soft": False}
 
 
+@st.composite
+def _book_gap(draw):
+    """an order book with enforced full execution whose first order(s) lie outside the horizon: their variables have
+    no mapping rows, the labels of the flagged variables behind them do not start at the book's first variable"""
+    g = draw(gen.grids(min_T=3, max_T=10))
+    T = g["T"]
+    cx = gen.Cx(g, ["n0"], {"p0": draw(gen.price_series(T))})
+    book = gen.a_orderbook(draw, cx, "book", n_max=5)
+    book["full_exec"] = True
+    k = draw(st.integers(1, 2))
+    for o in book["orders"][:k]:
+        o[0], o[1] = (-4, -1) if draw(st.booleans()) else (T + 1, T + 3)
+    for o in book["orders"][k:]:
+        s_ = draw(st.integers(0, T - 1))
+        o[0], o[1] = s_, draw(st.integers(s_ + 1, T))
+    if len(book["orders"]) <= k:
+        s_ = draw(st.integers(0, T - 1))
+        book["orders"].append([s_, T, 1.0 / cx.dt0, 2.0])
+    assets = [book] if draw(st.booleans()) else []
+    assets += gen.markets(cx, cap_q=4.0, draw=draw)
+    if not any(a["type"] == "orderbook" for a in assets):
+        assets.insert(draw(st.integers(0, len(assets))), book)
+    if draw(st.booleans()):
+        assets.append(gen.a_storage(draw, cx, "s0"))
+        assets[-1]["price"] = None
+    return {"kind": "portfolio", "grid": g, "prices": cx.prices, "assets": assets, "split": None,
+            "solver": draw(st.sampled_from([None, "SCIP", "SCIPY"])), "soft": False, "book_gap": True}
+
+
 def strategy(tier):
-    return st.one_of(_raw(), _raw(), _raw(), _pf(), _pf(), _profiles())
+    return st.one_of(_raw(), _raw(), _raw(), _pf(), _pf(), _profiles(), _book_gap())
 
 
 def build_raw(spec):
